@@ -1500,12 +1500,25 @@ impl Relation {
     pub fn architectures(&self) -> Option<impl Iterator<Item = String> + '_> {
         let architectures = self.0.children().find(|n| n.kind() == ARCHITECTURES)?;
 
-        Some(architectures.children_with_tokens().filter_map(|node| {
+        // a negated architecture ("!amd64") is NOT followed by IDENT
+        let mut negated = false;
+        Some(architectures.children_with_tokens().filter_map(move |node| {
             let token = node.as_token()?;
-            if token.kind() == IDENT {
-                Some(token.text().to_string())
-            } else {
-                None
+            match token.kind() {
+                NOT => {
+                    negated = true;
+                    None
+                }
+                IDENT => {
+                    let arch = if negated {
+                        format!("!{}", token.text())
+                    } else {
+                        token.text().to_string()
+                    };
+                    negated = false;
+                    Some(arch)
+                }
+                _ => None,
             }
         }))
     }
